@@ -405,6 +405,9 @@ func (fr *Frame) callWithSpec(callee *ssa.Function, spec *FuncSpec, args []Val, 
 			fx.assume(st.guard, t)
 		}
 	}
+	if spec.Logged {
+		fx.logCall(st, short, args, resVals)
+	}
 	if key == "sync.(*Mutex).Lock" || key == "sync.(*Mutex).Unlock" {
 		fr.monitorHook(key == "sync.(*Mutex).Lock", args[0], st, pre, pos)
 	}
@@ -859,6 +862,19 @@ func (fx *FnCtx) logCall(st *State, name string, args []Val, res []Val) {
 		so := ash.sorts()
 		for j := range nv.ts {
 			nv.ts[j] = fx.define("evargs", so[j], nv.ts[j])
+		}
+		st.cells[c] = nv
+	}
+	for i, a := range res {
+		if a.ptr != nil || len(a.fns) > 0 {
+			continue
+		}
+		ash := &Shape{kind: KArr, elem: a.sh, n: -1, key: "[ev]" + a.sh.key}
+		c := fx.ghostCell(st, fmt.Sprintf("evres:%s:%d", name, i), ash, freshVal(fx.decls, ash, "evress0"))
+		nv := st.cells[c].arraySet(k, a)
+		so := ash.sorts()
+		for j := range nv.ts {
+			nv.ts[j] = fx.define("evress", so[j], nv.ts[j])
 		}
 		st.cells[c] = nv
 	}
